@@ -32,7 +32,13 @@ RULE = (
     "meta: every key over the 4 optional parts x palettes x every value of the palette, every ordered key pair of a "
     "reduced palette; records: every ordered selection of <= 3 distinct record names; rdkit: every graph on <= 4 "
     "atoms x single deviations x {default, kekulize, dative} x depth {array, 1, 2, 3}, every aromatic pattern on "
-    "rings of 3..6 atoms.  A case is non-trivial when it carries >= 1 deviation from the plain base molecule / "
+    "rings of 3..6 atoms; reuse: ONE MOLFile / SDRecord written 2 (thorough 3) times with every ordered selection "
+    "of the content palette (atom/bond count, charges, version incl. 999/1000, header, metadata; refused contents "
+    "in between), object fresh or parsed from text, getters touched or not between the writes, text-first or "
+    "getters-first afterwards, compared with a fresh object given only the last content; ONE SDFile under every "
+    "sequence of <= 2 (thorough 3) operations of {put, delete, convert.set_structure, refused set_structure} on "
+    "names A/B/C from an empty and a parsed file; to_mol/from_mol repeated on the same Mol / stack.  A case is "
+    "non-trivial when it carries >= 1 deviation from the plain base molecule / "
     "empty header / single plain key and the oracle compared a parsed file or a read-back object (or verified a "
     "refusal)."
 )
@@ -2532,6 +2538,10 @@ def bounds(tier):
         "rdkit": "graphs on 1..4 atoms x single deviations (pairs on n<=%d) x kw %s x depth %s (depth 1 and 3 only for "
                  "the plain molecule and bond-type deviations); aromatic rings 3..6 "
                  "over %s" % (2 if q else 3, list(RD_KW), RD_DEPTHS, RING_TYPES),
+        "reuse": {"contents": list(REUSE_CONTENTS), "refused_contents": list(REUSE_BAD),
+                  "writes_per_object": 2 if q else 3, "sdfile_ops": len(sdf_ops()),
+                  "sdfile_ops_per_sequence": "1..%d" % (2 if q else 3), "rdkit_molecules": list(REUSE_RD),
+                  "cases": sum(1 for _ in reuse_cases(tier))},
         "palettes": len(PALETTES),
     }
 
